@@ -53,26 +53,39 @@ def regen_facts():
 
 
 def regen_trans():
-    """Go-to-Lean translator (go/translate) -> lean/Pw/Generated/Trans.lean: pkg/buffer as executable Lean
-    definitions, re-derived from the working tree on every run (only rewritten when changed)."""
+    """Go-to-Lean translator (go/translate) -> lean/Pw/Generated/Trans.lean (pkg/buffer) and TransCopy.lean
+    (copy.go of the root package) as executable Lean definitions, re-derived from the working tree on every
+    run (each file only rewritten when changed)."""
     exe = os.path.join(BIN, "pwtranslate")
     r = sh(["go", "build", "-o", exe, "."], cwd=TRANSLATE_SRC, env=GOENV)
     if r.returncode != 0:
         return False, "translator build failed:\n" + r.stdout
-    r = subprocess.run([exe, REPO], stdout=subprocess.PIPE, stderr=subprocess.PIPE, text=True, env=GOENV)
-    target = os.path.join(LEAN, "Pw", "Generated", "Trans.lean")
-    if r.returncode != 0:
-        # the package no longer parses / type-checks for the translator: leave a stub so that the tie modules fail
-        out = "/- GENERATED: translation failed -/\nimport Pw.Go.Rt\nnamespace Pw.Trans\ndef untranslatable : List String := [\"translator failed\"]\nend Pw.Trans\n"
-        msg = "translator failed:\n" + r.stderr[-1500:]
-    else:
-        out, msg = r.stdout, ""
-    old = open(target).read() if os.path.exists(target) else None
-    if old != out:
-        os.makedirs(os.path.dirname(target), exist_ok=True)
-        with open(target, "w") as f:
-            f.write(out)
-    return r.returncode == 0, msg
+    # on failure (the package no longer parses / type-checks for the translator) a stub is left whose
+    # `untranslatable` is non-empty, so that the tie modules fail
+    jobs = [
+        ([exe, REPO], "Trans.lean",
+         "/- GENERATED: translation failed -/\nimport Pw.Go.Rt\nnamespace Pw.Trans\n"
+         "def untranslatable : List String := [\"translator failed\"]\nend Pw.Trans\n"),
+        ([exe, "-copy", REPO], "TransCopy.lean",
+         "/- GENERATED: translation failed -/\nimport Pw.Generated.Trans\nimport Pw.Go.RtCopy\nnamespace Pw.TransCopy\n"
+         "def untranslatable : List String := [\"translator failed\"]\nend Pw.TransCopy\n"),
+    ]
+    ok, msgs = True, []
+    for cmd, name, stub in jobs:
+        r = subprocess.run(cmd, stdout=subprocess.PIPE, stderr=subprocess.PIPE, text=True, env=GOENV)
+        target = os.path.join(LEAN, "Pw", "Generated", name)
+        if r.returncode != 0:
+            out = stub
+            ok = False
+            msgs.append("translator failed (%s):\n%s" % (name, r.stderr[-1500:]))
+        else:
+            out = r.stdout
+        old = open(target).read() if os.path.exists(target) else None
+        if old != out:
+            os.makedirs(os.path.dirname(target), exist_ok=True)
+            with open(target, "w") as f:
+                f.write(out)
+    return ok, "\n".join(msgs)
 
 
 def lake_build(targets):
